@@ -3,10 +3,10 @@ CONSTANTS MaxNode = 3
           MaxBlock = 2
           MaxReq = 2
           MaxSess = 1
-          D = 3
-          Places <- PlacesTwo
-          SessChoices = {0}
-          ReqChoices <- ReqSmall
+          D = 6
+          Places <- PlacesNone
+          SessChoices = {1}
+          ReqChoices <- ReqOne
           AddNodes = {2}
           MaxAdds = 1
           MaxReqs = 2
